@@ -1,8 +1,8 @@
 #!/verif/.venv/bin/python
 # Replay of a solver counterexample against the unmodified code (no shims).
-# property=C16 kernel=pinit label=pinit:accept_iff_nonneg_and_equal_len
+# property=C16 kernel=phase_fp label=k4:fp_phase_below_2pi
 import sys
 sys.path[:0] = ['/repo' + "/pulser-core", '/repo' + "/pulser-simulation", "/verif"]
 from symx.replay import replay
-sys.exit(replay(check='checks.c16', kernel='pinit', shape={'amp': 'const', 'n': 3, 'dd': 0},
-                assignment={'amp.v': '-2000000001/4000000004000000000', 'det.v': '0/1'}, label='pinit:accept_iff_nonneg_and_equal_len'))
+sys.exit(replay(check='checks.c16', kernel='phase_fp', shape={},
+                assignment={'x_bits': 9331458430059151360}, label='k4:fp_phase_below_2pi'))
